@@ -16,3 +16,15 @@ Definition chk11 (c : case11) : bool :=
              | _ => hop_shift FOps n aux dR
              end in
   cclose_ll (0x1p-36 * sc) out impl.
+(* n, Re diag delR per dimension, Re diag delP per dimension, state forces, active, dt, impl gamma *)
+Definition caseG : Type := (nat * list (list float) * list (list float) * list (list float) * nat * float * list float)%type.
+Definition lmaxg (l : list float) : float := fold_right (fun x acc => fmaxabs x acc) 0x1p-1000 l.
+Definition chkG (c : caseG) : bool :=
+  let '(n, dR, dP, F, k, dt, ig) := c in
+  fclose_l (0x1p-44 * lmaxg ig) 0 (gamma_collapse FOps n dR dP F k dt) ig.
+(* gamma, active, next uniforms of the trajectory's stream, impl: collapsed?, number of uniforms consumed *)
+Definition caseS : Type := (list float * nat * list float * bool * nat)%type.
+Definition chkS (c : caseS) : bool :=
+  let '(gam, k, us, icoll, iused) := c in
+  let '(coll, rest) := collapse_scan FOps gam k 0 us in
+  Bool.eqb coll icoll && Nat.eqb (length us - length rest) iused.
